@@ -457,6 +457,7 @@ pub fn run(tier: Tier, replay: Option<String>) -> i32 {
     // case has just released to another case's bind(port 0), and "connect is refused" would then
     // observe the other case's listener. IPC paths are unique, so those cases run in parallel.
     let tcp_turn = Mutex::new(());
+    let skipped = AtomicUsize::new(0);
     let par = ck.threads.min(8);
     std::thread::scope(|sc| {
         for _ in 0..par {
@@ -464,6 +465,11 @@ pub fn run(tier: Tier, replay: Option<String>) -> i32 {
                 let i = next.fetch_add(1, Ordering::Relaxed);
                 if i >= cases.len() {
                     break;
+                }
+                // once a few cases have failed there is a verdict; waiting out 5 s horizons on hundreds more adds nothing
+                if found.lock().unwrap().len() >= 4 {
+                    skipped.fetch_add(1, Ordering::Relaxed);
+                    continue;
                 }
                 let _turn = if cases[i].tr != Tr::Ipc { Some(tcp_turn.lock().unwrap()) } else { None };
                 let rt = e4::runtime(cases[i].workers);
@@ -554,7 +560,8 @@ pub fn run(tier: Tier, replay: Option<String>) -> i32 {
     ck.cov("traces_validated_against_impl", n_cases + ex);
     ck.cov("e4_cases", n_cases);
     ck.cov("e4_cases_with_findings", found.len() as u64);
-    ck.cov("exhaustive", true);
+    ck.cov("e4_cases_skipped_after_violations", skipped.load(Ordering::Relaxed) as u64);
+    ck.cov("exhaustive", skipped.load(Ordering::Relaxed) == 0);
     ck.cov("explanation", format!("E4 (real tokio runtime, real sockets; OS schedules NOT enumerated, every expectation is a monotone condition awaited up to {} s): the complete grid 9 socket types x {{TCP v4, TCP v6, IPC}} x 6 history prefixes {:?} x {{close, drop}}{} = {} cases: fresh connects are refused (immediately after close() returns), the IPC socket file is gone, the endpoint can be bound again, every established raw peer and every client parked in the handshake sees end-of-stream, close() reports no error in these failure-free histories, the runtime's alive-task count returns to its baseline. E3 (controlled executor, model checking): for each type the socket is dropped at each of {} points of a scenario with an established peer with traffic and a second peer at 3 handshake stages, under every schedule within the deviation bound from 2 policies: the drop returns (a synchronous wait on a lock owned by a suspended task of the only thread is reported as thread-blocked), every connection half is dropped and every library-spawned task has completed by quiescence.", e4::HORIZON.as_secs(), HISTS, if tier == Tier::Thorough { " x {multi-thread, current-thread} runtime" } else { "" }, n_cases, tier.pick(10, 14)));
     ck.assume("E4 does not own OS scheduling or kernel socket buffers; its oracles are insensitive to them (monotone conditions, 5 s horizon where correct code needs milliseconds)");
     ck.assume("close()'s error reporting is checked only for failure-free closes");
